@@ -8,8 +8,19 @@ configuration, and compare all of them on every input.
                  + {gcc, clang} x {C99, C11} x {extern table, no table, cmake option off}
                  + -mf16c builds of both languages (only if the CPU has F16C)
                  + -O0 / -O3 variants
-  quick   : one configuration per #if branch per language (+ two clang ones), all 2^32 + 2^16 inputs
-  thorough: the full matrix, all 2^32 + 2^16 inputs
+                 + -DIMATH_HALF_ENABLE_FP_EXCEPTIONS builds ("fpexc": the extra early return and the two feraiseexcept
+                   calls inside imath_float_to_half) of {g++ C++14, gcc C99} x {table, no table}
+  quick   : one configuration per #if branch per language per compiler family, all 2^32 + 2^16 inputs; the four fpexc
+            objects on the boundary subset of float inputs (harness/c01_boundary.hpp) and all 2^16 half inputs; the
+            ambient-state sweep (3 rounding modes, MXCSR DAZ / FTZ / DAZ+FTZ) on all 2^16 half inputs of every object and
+            on all 2^32 float inputs of one C and one C++ software object
+  thorough: the full matrix, all 2^32 + 2^16 inputs; one C and one C++ fpexc object on all 2^32 float inputs as well; the
+            float-input ambient-state sweep on one software object per branch per language per compiler
+
+Per-configuration attributes handed to the comparing program (5th column of configs.tsv):
+  fpexc          compiled with -DIMATH_HALF_ENABLE_FP_EXCEPTIONS
+  boundary-only  float->half is swept over the boundary subset only (not over all 2^32)
+  ambient        float->half is swept over all 2^32 inputs under every non-default ambient state as well
 
 Every configuration is harness/c02_block.c compiled into its own shared object; harness/c02_driver.cpp
 dlopen()s them all and compares bitwise with the reference configuration (g++ -std=c++14 -O2, lookup
@@ -45,9 +56,10 @@ def cpu_has_f16c():
     return False
 
 
-def cfg(compiler, std, backend, opt="O2"):
-    return {"compiler": compiler, "std": std, "backend": backend, "opt": opt,
-            "name": "%s-%s-%s-%s" % (compiler, std, backend, opt)}
+def cfg(compiler, std, backend, opt="O2", fpexc=False, attrs=()):
+    return {"compiler": compiler, "std": std, "backend": backend, "opt": opt, "fpexc": fpexc,
+            "attrs": set(attrs) | ({"fpexc"} if fpexc else set()),
+            "name": "%s-%s-%s%s-%s" % (compiler, std, backend, "+fpexc" if fpexc else "", opt)}
 
 
 def matrix(tier, f16c):
@@ -56,10 +68,13 @@ def matrix(tier, f16c):
     if tier == "quick":
         # one per #if branch per language, plus the other compiler once per language
         m += [cfg("g++", "c++14", "notable"), cfg("g++", "c++14", "cfgoff"),
-              cfg("gcc", "c99", "table"), cfg("gcc", "c99", "notable"),
-              cfg("clang++", "c++20", "notable"), cfg("clang", "c11", "table")]
+              cfg("gcc", "c99", "table"), cfg("gcc", "c99", "notable", attrs=["ambient"]), cfg("gcc", "c99", "cfgoff"),
+              cfg("clang++", "c++20", "notable", attrs=["ambient"]), cfg("clang++", "c++17", "table"), cfg("clang", "c11", "table")]
         if f16c:
             m += [cfg("g++", "c++14", "f16c"), cfg("gcc", "c99", "f16c")]
+        for cc, std in (("g++", "c++14"), ("gcc", "c99")):
+            for b in ("table", "notable"):
+                m.append(cfg(cc, std, b, fpexc=True, attrs=["boundary-only"]))
         return m
     seen = {m[0]["name"]}
 
@@ -80,15 +95,29 @@ def matrix(tier, f16c):
         for cc, std in (("g++", "c++14"), ("clang++", "c++14"), ("gcc", "c99"), ("clang", "c99")):
             for b in ["table", "notable"] + (["f16c"] if f16c else []):
                 add(cfg(cc, std, b, opt))
+    # fpexc variants: imath_float_to_half does not depend on the table selection, so one C and one C++ object are swept
+    # over all 2^32 float inputs (feraiseexcept makes such a sweep ~300 CPU-seconds per entry point), the other two over
+    # the boundary subset
+    add(cfg("g++", "c++14", "notable", fpexc=True))
+    add(cfg("gcc", "c99", "table", fpexc=True))
+    add(cfg("g++", "c++14", "table", fpexc=True, attrs=["boundary-only"]))
+    add(cfg("gcc", "c99", "notable", fpexc=True, attrs=["boundary-only"]))
+    # float-input ambient-state sweep: one software object per #if branch per language per compiler
+    amb = {"g++-c++14-notable-O2", "g++-c++14-cfgoff-O2", "clang++-c++14-table-O2", "clang++-c++14-notable-O2",
+           "gcc-c99-table-O2", "gcc-c99-notable-O2", "gcc-c99-cfgoff-O2", "clang-c99-table-O2", "clang-c99-notable-O2"}
+    for c in m:
+        if c["name"] in amb:
+            c["attrs"].add("ambient")
+    assert amb <= set(c["name"] for c in m)
     return m
 
 
 def expected_describe(c, ):
     is_cxx = c["std"].startswith("c++")
-    return "lang=%s std=%s compiler=%s optimize=%d f16c=%d use_lut=%d no_lut=%d" % (
+    return "lang=%s std=%s compiler=%s optimize=%d f16c=%d use_lut=%d no_lut=%d fpexc=%d" % (
         "c++" if is_cxx else "c", STD_VALUE[c["std"]], "clang" if "clang" in c["compiler"] else "gcc",
         0 if c["opt"] == "O0" else 1, 1 if c["backend"] == "f16c" else 0,
-        0 if c["backend"] == "cfgoff" else 1, 1 if c["backend"] == "notable" else 0)
+        0 if c["backend"] == "cfgoff" else 1, 1 if c["backend"] == "notable" else 0, 1 if c["fpexc"] else 0)
 
 
 class BuildError(Exception):
@@ -104,6 +133,8 @@ def build_one(c, bdir, cfg_on, cfg_off):
         common.append("-DIMATH_HALF_NO_LOOKUP_TABLE")
     if c["backend"] == "f16c":
         common.append("-mf16c")
+    if c["fpexc"]:
+        common.append("-DIMATH_HALF_ENABLE_FP_EXCEPTIONS")
     src = os.path.join(VERIF, "harness", "c02_block.c")
     tu = os.path.join(bdir, c["name"] + ".tu.o")
     cmd = [c["compiler"], "-std=" + c["std"]] + (["-x", "c++"] if is_cxx else []) + common + ["-c", src, "-o", tu]
@@ -123,7 +154,7 @@ def build_one(c, bdir, cfg_on, cfg_off):
         objs.append(ho)
         linker = cxx
     so = os.path.join(bdir, c["name"] + ".so")
-    cmd = [linker, "-shared", "-o", so] + objs + ["-Wl,-Bsymbolic", "-Wl,-z,defs"]
+    cmd = [linker, "-shared", "-o", so] + objs + ["-Wl,-Bsymbolic", "-Wl,-z,defs"] + (["-lm"] if c["fpexc"] else [])
     r = run(cmd)
     if r.returncode:
         raise BuildError("link failed: %s\n%s" % (" ".join(cmd), r.stdout[-4000:]))
@@ -138,6 +169,9 @@ def build_one(c, bdir, cfg_on, cfg_off):
         raise BuildError("configuration %s: object %s the lookup table, expected the opposite" % (c["name"], "references" if refs_table else "does not reference"))
     if uses_hw != (want_hw, want_hw):
         raise BuildError("configuration %s: F16C instructions present=%s, expected %s" % (c["name"], uses_hw, want_hw))
+    raises = any(l.split()[-2:] == ["U", "feraiseexcept"] for l in nm.splitlines() if l.strip())
+    if raises != c["fpexc"]:
+        raise BuildError("configuration %s: object %s feraiseexcept, expected the opposite" % (c["name"], "calls" if raises else "does not call"))
     c["so"] = so
     return c
 
@@ -206,7 +240,7 @@ def main(prop, tier, seed, replay=None):
     lst = os.path.join(bdir, "configs.tsv")
     with open(lst, "w") as f:
         for c in cfgs:
-            f.write("\t".join([c["name"], KIND[c["backend"]], c["so"], expected_describe(c)]) + "\n")
+            f.write("\t".join([c["name"], KIND[c["backend"]], c["so"], expected_describe(c), ",".join(sorted(c["attrs"])) or "-"]) + "\n")
     out = os.path.join(bdir, "report.json")
     deadline = spec.get("deadline", {}).get(tier, 240 if tier == "quick" else 900)
     deadline = max(30, deadline - (time.time() - t0))  # the build is part of the budget
@@ -235,7 +269,7 @@ def main(prop, tier, seed, replay=None):
             return 1
         print("NOT REPRODUCED: site %s holds on the current tree" % rj["site"])
         return 0
-    extra = {"configurations": [{"name": c["name"], "branch": KIND[c["backend"]], "compiled_as": expected_describe(c)} for c in cfgs],
+    extra = {"configurations": [{"name": c["name"], "branch": KIND[c["backend"]], "compiled_as": expected_describe(c), "attributes": sorted(c["attrs"])} for c in cfgs],
              "f16c_cpu": f16c}
     return check.judge(prop, tier, seed, rep, extra)
 
